@@ -120,7 +120,8 @@ func getMessage(typ byte) Message {
 	case messageTypeDeleteAvailableShard:
 		return &DeleteAvailableShardMessage{}
 	default:
-		panic(fmt.Sprintf("unknown message type %d", typ))
+		// the type byte comes off the wire: not ours to panic about
+		return nil
 	}
 }
 
